@@ -42,12 +42,17 @@ type c14E2ECases struct {
 
 // c14E2EKey is the spelling-independent form of an event (a selector may have unescaped strings in place)
 func c14E2EKey(text string) string {
-	var v interface{}
-	if err := json.Unmarshal([]byte(text), &v); err != nil {
-		return "!" + text
+	dec := json.NewDecoder(strings.NewReader(text))
+	dec.UseNumber()
+	var b strings.Builder
+	for {
+		tok, err := dec.Token() // key order is kept; strings arrive unescaped
+		if err != nil {
+			break
+		}
+		fmt.Fprintf(&b, "%T:%v\x1f", tok, tok)
 	}
-	b, _ := json.Marshal(v)
-	return string(b)
+	return b.String()
 }
 
 type c14E2EOut struct {
